@@ -21,6 +21,11 @@ theorem intRange_pairwise (a b : Int) : (intRange a b).Pairwise (· < ·) := by
   have : (List.range (b - a).toNat).Pairwise (· < ·) := List.pairwise_lt_range
   exact this.imp (by intro x y h; omega)
 
+theorem intRange_one (x : Int) : intRange x (x + 1) = [x] := by
+  unfold intRange
+  have : (x + 1 - x).toNat = 1 := by omega
+  rw [this]; simp [List.range_succ]
+
 variable {r : Rule} {info : Info}
 
 /-- **YEARLY**: indices `0 … yearlen−1`, i.e. every day of the cursor's year -/
